@@ -10,7 +10,7 @@ import os
 import re
 from vpc.core import cN, cstr, cbytes, clist, copt, cbool
 
-IMPORTS = "Require Import V.model.Parsers V.model.BootCache."
+IMPORTS = "Require Import V.model.Amount V.model.Parsers V.model.BootCache."
 THEOREMS = [
     "no_panic_reg_from_hex", "reg_format_parse_roundtrip", "reg_from_hex_accepts_iff",
     "no_panic_scratch_from_hex", "scratch_format_parse_roundtrip",
@@ -26,6 +26,7 @@ THEOREMS = [
     "increment_port_unfixed_refuted", "load_cache_unfixed_refuted",
     "no_panic_expiry_test", "expiry_by_addition_refuted", "str_slice_prefix_refuted",
     "registry_save_load_roundtrip", "write_without_truncate_refuted",
+    "amount_format_parse_roundtrip",
     "no_panic_check_port_availability", "check_port_availability_refuses_iff", "port_availability_exclusive_refuted",
     "no_panic_try_deserialize_record", "try_deserialize_record_refuses_short", "payload_slice_first_refuted",
 ]
@@ -34,6 +35,8 @@ RULE = ("per text parser: non-ASCII inputs whose BYTE length is exactly L for L 
         "starting at byte offsets 0..4 and ending at the end; 0x/0X prefixes, blanks, quotes, signs around valid values; "
         "cache files with last_seen at 0, 1, 2^31, 2^32, 2^62, i64::MAX-{0,1,59..86401,10^9}, u64 values and nanos "
         "serde rejects, and within 1-3 s of now / the expiry boundary; "
+        "formatter -> parser over the whole value domain: amounts of every bit length 1..256 (2^k-1, 2^k, 2^k+1, random), "
+        "2^k * 10^18 and neighbours, 10^k neighbours, MAX; canonical port texts for 2^k-1/2^k/2^k+1; "
         "PortRange consumers: check_port_availability / get_start_port_if_applicable for ranges with start 0, end 65535, "
         "start = end, end < start and neighbours against 0-3 recorded services whose ports sit on / next to the bounds; "
         "try_deserialize_record::<T> for the 8 types used in the code base on every length 0..SIZE+2, truncations of a valid "
@@ -64,7 +67,7 @@ ASSUMPTIONS = [
 ]
 UNFIXED = bool(os.environ.get("C17_UNFIXED"))   # validate the *_unfixed model against a tree without the fixes
 RELEASE = False      # set while the cases of the release-profile (wrapping arithmetic) harness are judged
-RELEASE_OPS = ("port_parse", "port_validate", "incr_port", "port_avail", "record_payload", "load_cache", "amount_from_str", "header_from_record",
+RELEASE_OPS = ("amount_roundtrip", "port_parse", "port_validate", "incr_port", "port_avail", "record_payload", "load_cache", "amount_from_str", "header_from_record",
                "reg_from_hex", "scratch_from_hex", "str_to_addr", "datamap_from_hex", "registry_load")
 
 
@@ -377,6 +380,23 @@ PAYLOAD_TYPES = ["chunk", "scratchpad", "transactions", "register", "paid_chunk"
                  "paid_register"]
 
 
+def domain_amounts(rng, per_bit):
+    """boundary values across the WHOLE U256 domain: every bit length 1..256 (2^k-1, 2^k, 2^k+1 and random values of that
+    length), whole-token multiples 2^k * 10^18 and their neighbours, powers of ten, MAX"""
+    M = 2 ** 256
+    xs = {0, 1, M - 1, M - 2, M - 10 ** 18, (M // 10 ** 18) * 10 ** 18, (M // 10 ** 18) * 10 ** 18 - 1}
+    for k in range(0, 257):
+        xs |= {2 ** k - 1, 2 ** k, 2 ** k + 1}
+        for _ in range(per_bit):
+            if k:
+                xs.add((1 << (k - 1)) | rng.getrandbits(k - 1) if k > 1 else 1)
+        t = 2 ** k * 10 ** 18
+        xs |= {t - 1, t, t + 1, t + 10 ** 17, t + 999999999999999999}
+    for k in range(0, 78):
+        xs |= {10 ** k - 1, 10 ** k, 10 ** k + 1}
+    return sorted(x for x in xs if 0 <= x < M)
+
+
 def port_avail_cases(rng, n):
     """every consumer of a PortRange: check_port_availability / get_start_port_if_applicable with boundary ranges
     (start 0, end 65535, start = end, end < start, neighbours) against a few recorded service ports"""
@@ -524,6 +544,13 @@ def gen(ctx, valid_pks):
         if a < b <= 65535:
             cases.append(dict(S("%d-%d" % (a, b)), op="port_parse", canon=[1, a, b]))
         cases.append(dict(S("%d" % a), op="port_parse", canon=[0, a, a]))
+    for kk in range(0, 17):           # canonical texts across the whole u16 domain
+        for p in {max(2 ** kk - 1, 0), min(2 ** kk, 65535), min(2 ** kk + 1, 65535)}:
+            cases.append(dict(S("%d" % p), op="port_parse", canon=[0, p, p]))
+            if p < 65535:
+                cases.append(dict(S("%d-65535" % p), op="port_parse", canon=[1, p, 65535]))
+            if p > 0:
+                cases.append(dict(S("0-%d" % p), op="port_parse", canon=[1, 0, p]))
     for p in [None, 0, 1, 2, 1023, 32767, 32768, 65533, 65534, 65535] + [rng.randrange(U16) for _ in range(10 * k)]:
         cases.append({"op": "incr_port", "p": p})
     cases += port_avail_cases(rng, 160 * k)
@@ -532,6 +559,8 @@ def gen(ctx, valid_pks):
     for s in amount_strings(rng, 80 * k) + utf8_probes([3, 6, 20, 40, 78], filler="1", deltas=(0,)) + \
             utf8_probes([6, 22], filler=".", deltas=(0,), offsets=(0, 1, 2)) + tolerance_probes(["1.5", "16", "0.000000000000000001"]):
         cases.append(dict(S(s), op="amount_from_str"))
+    for a in domain_amounts(rng, 0 if quick else 3):
+        cases.append({"op": "amount_roundtrip", "a": str(a)})
     # ---- multiaddresses
     pidx = peer_id(rng)[0]
     for s in multiaddr_strings(rng, 200 * k) + utf8_probes([5, 12, 30], filler="/", deltas=(0,)) + \
@@ -731,6 +760,13 @@ def oracle(c, o):
         if o["r"] != want:
             bad("incr-wrap" if p == 65535 else "incr-value", "increment_port_option(%s) = %s%s" % (
                 p, o["r"], " (wrapped to port 0 instead of reporting that there is no next port)" if o["r"] == 0 else ""))
+    elif op == "amount_roundtrip":
+        a = int(c["a"])
+        m = re.fullmatch(r"([0-9]+)\.([0-9]+)", o["s"], re.A)
+        if not m or len(m.group(2)) != 18 or int(m.group(1)) * 10 ** 18 + int(m.group(2)) != a:
+            bad("amount-display", "display(%d) = %r does not denote the amount (whole tokens '.' 18 fractional digits)" % (a, o["s"]))
+        if o["code"] != 0 or int(o["v"]) != a:
+            bad("roundtrip", "from_str(display(%d)) = %s via %r, not the amount" % (a, (o["code"], o["v"]), o["s"]))
     elif op == "amount_from_str":
         s = text_of(c)
         m = GRAMMAR.fullmatch(s)
@@ -898,6 +934,11 @@ def model_term(c, o):
         return "agree_payload %s %s %s" % (cbytes(bytes(o["value"])), copt(o["oracle"], cbool), cN(k))
     if op == "incr_port":
         return "agree_incr %s %s %s %s" % (variant(), copt(c["p"], cN), cN(k if "panic" in o else 0), copt(o.get("r"), cN))
+    if op == "amount_roundtrip":
+        if "panic" in o:
+            return "false"
+        return "agree_display %s %s && agree_amount %s %s %s" % (
+            cN(int(c["a"])), cstr(o["s"]), cstr(o["s"]), cN(o["code"]), cN(int(o["v"])))
     if op == "amount_from_str":
         if "panic" in o:
             return "false"
